@@ -159,9 +159,21 @@ class Run:
             variant = op[4]
             held, seen = [], {}
 
+            divert = bool((variant >> 6) & 1) and hops >= 2
+            thief = ("6.6.6.6", 6000)
+
             def hook(fl):
                 cell = parse_cell(fl.data, w.prefix)
+                if cell is not None and divert and not cell["plaintext"] and fl.origin is origin.raw_endpoint and \
+                        cell["circuit_id"] == seen.get("cid") and "diverted" not in seen:
+                    # the originator's (encrypted) extend cell is lost on its way; a third party that copied it off the
+                    # wire hands the very same bytes to the relay from its own address
+                    seen["diverted"] = 1
+                    w.net.inject(thief, fl.dst, fl.data, note="extend cell re-sent by a third party")
+                    return []
                 if cell is None or not cell["plaintext"] or "done" in seen:
+                    return None
+                if divert and cell["message"][:1] == b"\x03":
                     return None
                 if cell["message"][:1] == b"\x02" and fl.origin is origin.raw_endpoint and "cid" not in seen:
                     seen["cid"], seen["ident"], seen["hop"] = cell["circuit_id"], cell["message"][1:3], fl.dst
@@ -176,24 +188,39 @@ class Run:
                 random.seed(op[3] * 1009 + i * 7919 + 1)
                 circuit = origin.overlay.create_circuit(hops)
                 await w.net.settle()
-                if circuit is None or "cid" not in seen or not held:
+                if divert and circuit is not None:
+                    try:
+                        await asyncio.wait_for(asyncio.shield(circuit.ready), 40.0)
+                    except asyncio.TimeoutError:
+                        pass
+                    w.net.on_send = None
+                    stolen = [f for f in w.net.log if f.dst == thief]
+                    if stolen:
+                        self.fail("J1", "extend_resent", f"a third party handed the relay a copy of the originator's extend "
+                                                         f"cell from its own address {thief}; the relay then sent "
+                                                         f"{len(stolen)} cell(s) of that circuit to the third party")
+                    if circuit.state != "READY":
+                        self.fail("J2", "extend_resent", f"the circuit did not get built (state {circuit.state})")
+                    key = b""
+                elif circuit is None or "cid" not in seen or not held:
                     w.net.on_send = None
                     return
-                key = os.urandom([32, 32, 31, 0, 33][variant % 5])
-                auth = os.urandom(32)
-                msg = b"\x03" + seen["ident"] + struct.pack(">H", len(key)) + key + auth + os.urandom((variant >> 3) % 40)
-                cell = w.prefix + b"\x00" + struct.pack(">I", seen["cid"]) + b"\x01\x00" + msg
-                src = seen["hop"] if (variant >> 2) & 1 else ("6.6.6.6", 6000)
-                w.net.inject(src, origin.address, cell, note="made-up created")
-                await w.net.settle()
-                seen["done"] = 1
-                w.net.on_send = None
-                for fl in held:
-                    w.net.inject(fl.src, fl.dst, fl.data, note="genuine created, released")
-                try:
-                    await asyncio.wait_for(asyncio.shield(circuit.ready), 40.0)
-                except asyncio.TimeoutError:
-                    pass
+                else:
+                    key = os.urandom([32, 32, 31, 0, 33][variant % 5])
+                    auth = os.urandom(32)
+                    msg = b"\x03" + seen["ident"] + struct.pack(">H", len(key)) + key + auth + os.urandom((variant >> 3) % 40)
+                    cell = w.prefix + b"\x00" + struct.pack(">I", seen["cid"]) + b"\x01\x00" + msg
+                    src = seen["hop"] if (variant >> 2) & 1 else ("6.6.6.6", 6000)
+                    w.net.inject(src, origin.address, cell, note="made-up created")
+                    await w.net.settle()
+                    seen["done"] = 1
+                    w.net.on_send = None
+                    for fl in held:
+                        w.net.inject(fl.src, fl.dst, fl.data, note="genuine created, released")
+                    try:
+                        await asyncio.wait_for(asyncio.shield(circuit.ready), 40.0)
+                    except asyncio.TimeoutError:
+                        pass
             finally:
                 w.net.on_send = None
             if circuit.state != "READY" or circuit.circuit_id not in origin.overlay.circuits:
@@ -211,7 +238,7 @@ class Run:
                 self.fail("J4", "build", "path of a ready circuit does not end in an exit entry")
             self.circuits.append(rec)
             self.nontrivial = True
-            self.executed.append(("open_under_fire", hops, variant % 5))
+            self.executed.append(("open_under_fire", hops, "divert" if divert else variant % 5))
         elif kind == "send":
             if not live:
                 return
@@ -739,7 +766,7 @@ def _grid_cases() -> list:
                 ops += [["forged_cell", 0, e, v] for v in range(64)]
                 out.append({"nodes": 5, "stack": stack, "ops": ops})
     for hops in (1, 2, 3):
-        for variant in range(10):
+        for variant in [*range(10), 64, 65]:
             out.append({"nodes": 5, "stack": None, "ops": [["open", 1, 1, 3], ["open_under_fire", 2, hops - 1, 5, variant],
                                                             ["send", 0, 1], ["send", 1, 2]]})
     return out
